@@ -98,6 +98,24 @@ Theorem C07_cover_partial : forall cfg p f0 t LB s ops,
   /\ (lookup p (trk s') = Some [] \/ exists rf, lookup p (trk s') = Some [(rf, t)]).
 Proof. exact cover_run. Qed.
 
+(* F11 (open known finding): admit UNRESTRICTED stragglers of an earlier assignment (Wild: ahead of the client's
+   position, possibly a multiple of updateRequestEvery or beyond to) and coverage fails strictly inside the window:
+   a straggler on the broadcast grid followed by a re-assignment loses 13..19 of (10,30]; a straggler beyond to closes
+   (10,20] after 11, 12.  C07_cover_partial above is the part that holds (stragglers restricted as in Ahead). *)
+Definition C07_straggler_full_statement : Prop := C07_cover_straggler_statement.
+
+Theorem C07_straggler_refuted : ~ C07_cover_straggler_statement.
+Proof. exact cover_straggler_refuted. Qed.
+
+Example C07_straggler_witness :
+  (forallb (ok_op_wild 1 (-1)) f11_grid_ops = true
+   /\ lookup 1 (trk (final_state f6_cfg init_state (Request 1 10 30 :: f11_grid_ops))) = Some []
+   /\ run_emits 1 (rrun f6_cfg init_state (Request 1 10 30 :: f11_grid_ops)) = [11; 12; 20; 21; 22; 23; 24; 25; 26; 27; 28; 29; 30])
+  /\ (forallb (ok_op_wild 1 (-1)) f11_beyond_ops = true
+      /\ lookup 1 (trk (final_state f6_cfg init_state (Request 1 10 20 :: f11_beyond_ops))) = Some []
+      /\ run_emits 1 (rrun f6_cfg init_state (Request 1 10 20 :: f11_beyond_ops)) = [11; 12]).
+Proof. exact f11_witness. Qed.
+
 (* its hypothesis is what RequestRecovery establishes, and is inhabited *)
 Theorem C07_request_is_fresh : forall cfg s p f t,
   lookup p (trk s) = None -> lookup p (replay (mlog s)) = None -> active s = [] -> t - f <= c_maxrec cfg ->
@@ -118,4 +136,5 @@ Print Assumptions C07_truncation_moves.
 Print Assumptions C07_other_errors_ignored.
 Print Assumptions C07_cover_full_refuted.
 Print Assumptions C07_cover_partial.
+Print Assumptions C07_straggler_refuted.
 Print Assumptions C07_request_is_fresh.
